@@ -31,8 +31,10 @@ pub enum Kind {
     ReplyData,
     /// a non-reply entry point ran / did not run / in the wrong order
     EntryPresence,
-    /// sender / funds / block / own balance wrong at entry
+    /// sender / funds / block wrong at entry
     EntryCtx,
+    /// the contract's own balance at entry (funds just received / returned) wrong
+    EntryBalance,
     /// served by the wrong code version
     CodeTag,
     /// the contract's own storage at entry differs (visibility / rollback)
@@ -208,7 +210,7 @@ pub fn compare(world: &World, start: &MState, prog: &Program, real: &RealOut, mo
             Kind::CodeTag
         } else if r.sender != m.sender || r.funds != m.funds || r.block != m.block || r.bundle.balances.first() != m.bundle.balances.first() {
             out.push(Divergence {
-                kind: Kind::EntryCtx,
+                kind: if r.sender != m.sender || r.funds != m.funds || r.block != m.block { Kind::EntryCtx } else { Kind::EntryBalance },
                 detail: json!({"index": i, "rec": short_rec(r), "real": {"sender": r.sender, "funds": r.funds, "block": r.block, "own_balance": r.bundle.balances.first()},
                                "model": {"sender": m.sender, "funds": m.funds, "block": m.block, "own_balance": m.bundle.balances.first()}}),
             });
